@@ -7,7 +7,7 @@ RULE = (
     "case = (scenario in {stage+transfer into a local store with state, index save of nested directories (every directory with an entry, or only the top-level ones; copying or with hardlink=True), store-to-store transfer (plain, expanded, or keeping a destination index), store-to-store "
     "transfer, upload staging, plain add of hashed files}, generated nested tree with duplicates and empty files, kill point n, "
     "plain or partial); the child process os._exit()s before the n-th filesystem-mutating audit event it issues under the "
-    "scenario root (quick: two trees per scenario (one for the two newest scenarios), every 14th event plus every event that touches a final object name (and the one after it); "
+    "scenario root (quick: two trees per scenario (one for the two newest scenarios; two more, object-name events only, for the scenarios with a link-attempt window), every 25th event plus every event that touches a final object name (and the one after it); "
     "thorough: every event), optionally after writing half of a copy or creating the file being opened; the parent audits the "
     "store, the state DB and closure, re-runs the operation in a fresh process and compares with an uninterrupted golden run.  "
     "non-trivial = the child really died at the kill point; distinct = (scenario, tree, n, variant)"
@@ -27,16 +27,29 @@ SCENARIOS = ["stage-transfer", "index-save", "store-to-store", "upload-staging",
 
 def run_shard(ctx):
     per = 2 if ctx.tier == "quick" else 8
-    every = 14 if ctx.tier == "quick" else 1
-    k = 0
+    every = 25 if ctx.tier == "quick" else 1
+    jobs = []
     for t in range(per):
         for sc in SCENARIOS if (ctx.tier != "quick" or t == 0) else SCENARIOS[:7]:
-            case = k
-            k += 1
-            if ctx.replay_case is not None and ctx.replay_case != case:
-                continue
-            if ctx.out_of_time():
-                ctx.res.count("stopped_by_time_budget")
-                return
-            rng = case_rng(ctx.pid, ctx.seed, 0, case, "master")  # identical master in every shard
-            ctx.guard(case, crash_rounds, ctx, sc, rng, case, every, None, True, f"t{t}")
+            jobs.append((sc, t, every))
+    if ctx.tier == "quick":
+        # further trees for the scenarios with a link-attempt window, killed only at the events that touch a final object name
+        for t in (2, 3):
+            for sc in ("upload-staging", "index-save-hardlink", "add-files"):
+                jobs.append((sc, t, 10**6))
+    # (scenario, tree) jobs are dealt to groups of shards; the kill points of a job are striped over the shards of its group
+    # (every shard of a group rebuilds the same master and recording from the same rng)
+    ngroups = 4 if ctx.nshards % 4 == 0 and ctx.nshards >= 8 else 1
+    members = [s_ for s_ in range(ctx.nshards) if s_ % ngroups == ctx.shard % ngroups]
+    stripe = (members.index(ctx.shard), len(members))
+    for ji, (sc, t, ev) in enumerate(jobs):
+        case = SCENARIOS.index(sc) + 100 * t  # stable per (scenario, tree): adding scenarios does not change other cases' data
+        if ctx.replay_case is not None and ctx.replay_case != case:
+            continue
+        if ctx.replay_case is None and ji % ngroups != ctx.shard % ngroups:
+            continue
+        if ctx.out_of_time():
+            ctx.res.count("stopped_by_time_budget")
+            return
+        rng = case_rng(ctx.pid, ctx.seed, 0, case, "master")  # identical master in every shard
+        ctx.guard(case, crash_rounds, ctx, sc, rng, case, ev, None, True, f"t{t}", stripe if ctx.replay_case is None else (0, 1))
